@@ -19,8 +19,6 @@ macro_rules! hs {
 // ---- C01: free script, masks only
 hs!(c01_q_optu8_leaf, sk_leaf(), p_c01::<Option<u8>>(true));
 hs!(c01_q_vecu8_leafbool, sk_leaf_k(crate::vsrc::K_BOOL), p_c01::<Vec<u8>>(false));
-hs!(c01_t_vecu8_leafstr, sk_leaf_k(crate::vsrc::K_STR), p_c01::<Vec<u8>>(false));
-hs!(c01_t_vecu8_leaf, sk_leaf(), p_c01::<Vec<u8>>(false));
 hs!(c01_q_vecu8_s2, sk_seq(2), p_c01::<Vec<u8>>(true));
 hs!(c01_q_arr3_s3, sk_seq(3), p_c01::<[u8; 3]>(true));
 hs!(c01_q_arr2_s3, sk_seq(3), p_c01::<[u8; 2]>(false));
@@ -39,8 +37,6 @@ hs!(c01_t_tupvec_mixed, sk_seq_mixed(2), p_c01::<(u8, Vec<u8>)>(true));
 // ---- C02 + C06: keep-going, reference model
 hs!(c02_q_vecu8_leafint, sk_leaf_k(crate::vsrc::K_INT), p_c02::<Vec<u8>>(false, false));
 hs!(c02_q_arr3_leafnull, sk_leaf_k(crate::vsrc::K_NULL), p_c02::<[u8; 3]>(false, false));
-hs!(c02_t_arr3_leafstr, sk_leaf_k(crate::vsrc::K_STR), p_c02::<[u8; 3]>(false, false));
-hs!(c02_t_vecu8_leaf, sk_leaf(), p_c02::<Vec<u8>>(false, false));
 hs!(c02_q_vecu8_s2, sk_seq(2), p_c02::<Vec<u8>>(true, true));
 hs!(c02_q_arr3_s3, sk_seq(3), p_c02::<[u8; 3]>(true, true));
 hs!(c02_q_arr2_s3, sk_seq(3), p_c02::<[u8; 2]>(false, false));
